@@ -1056,7 +1056,10 @@ def run_config(tape, ctx):
                 conf = {"hashseed": tape.pick(["0", "1", "2", "4294967295", "random"], "hashseed"),
                         "env": tape.weighted([3, 2, 1, 1, 2], "env"),
                         "cwd": tape.choose(4, "cwd"),
-                        "rerun": tape.bool(0.3, "rerun")}
+                        "rerun": tape.bool(0.3, "rerun"),
+                        # the interpreter's own switches are environment too: -O strips `assert` statements,
+                        # -X dev / warnings change nothing a generator may depend on
+                        "pyopt": tape.wpick([("", 5), ("1", 2), ("2", 1)], "PYTHONOPTIMIZE")}
             confs.append(conf)
             cwd = [build, srcd, other, "/"][conf["cwd"]]
             outdir = os.path.join(tmp, "out%d" % ci)
@@ -1064,6 +1067,8 @@ def run_config(tape, ctx):
             env = {k: v for k, v in os.environ.items() if not k.startswith(("LC_", "LANG", "PYTHON"))}
             env.update(ENV_VARIANTS[conf["env"]][1])
             env["PYTHONHASHSEED"] = conf["hashseed"]
+            if conf.get("pyopt"):
+                env["PYTHONOPTIMIZE"] = conf["pyopt"]
             env["PYTHONPATH"] = REPO
             env["PYTHONDONTWRITEBYTECODE"] = "1"
 
